@@ -235,10 +235,13 @@ class Runner:
                     if kind != "undo_drop":
                         m.redo.extend(reversed(undone))
                     else:
-                        # changes waiting in the redo list that were made on top of a dropped change lose their basis
-                        for r in m.redo:
-                            if any(related(a, b) for d_ in undone for a in d_.touched for b in r.touched):
-                                r.orphan = True
+                        # changes waiting in the redo list that were made on top of a dropped change lose their basis:
+                        # they leave the redo list together with it (transitively, newest first)
+                        gone = set(a for d_ in undone for a in d_.touched)
+                        for r in reversed(list(m.redo)):
+                            if any(related(a, b) for a in gone for b in r.touched):
+                                m.redo.remove(r)
+                                gone |= set(r.touched)
             if kind == "undo_sel":
                 target = h.undo_list[ev[1]] if ev[1] < len(h.undo_list) else None
                 call = lambda: h.undo(change=target)
